@@ -96,6 +96,11 @@ pub fn run_mode(ctx: &mut Ctx, mode: Mode) -> Verdict {
         // the close-session request has arrived, and the client has had time to drop the future
         steps.push(Step::WaitClientMessages(2 + n));
         steps.push(Step::SleepMs(2));
+        if kind == Kind::Local {
+            // if dropping that future makes the client kill its cli process, the kernel needs a moment of
+            // real time to tell the harness
+            steps.push(Step::RealPauseMs(40));
+        }
     }
     for (i, c) in chunks.iter().enumerate() {
         for (at, k) in &drops {
